@@ -6,12 +6,12 @@ Import ListNotations.
 Local Open Scope N_scope.
 
 Lemma readable_hashes : forall (H : bytes -> N) (cf : cfg) (ops : list (op bytes)) (name : N),
-  c_skip cf = false -> c_memverify cf = true ->
+  c_skip cf = false -> c_memverify cf = true -> race_free ops = true ->
   let v := view_of (exec H cf init ops) name in
   (forall c, v_data v = Some c -> H c = name) /\
   (forall k, v_size v = Some k -> exists c, v_data v = Some c /\ H c = name /\ k = len c) /\
   (forall nm c pl, v_meta v = Some (nm, c, pl) -> nm = name /\ H c = name).
-Proof. intros H cf ops name Hs Hm. exact (C01.readable_hashes H cf Hs Hm ops name). Qed.
+Proof. intros H cf ops name Hs Hm Hrf. exact (C01.readable_hashes H cf Hs Hm ops name Hrf). Qed.
 
 Lemma failed_write_invisible : forall (H : bytes -> N) (cf : cfg) (s : st) (o : op bytes),
   c_skip cf = false -> c_memverify cf = true -> bad_write H s o = true ->
@@ -27,9 +27,9 @@ Proof.
 Qed.
 
 Lemma check_sound : forall (H : bytes -> N) (cf : cfg) (names : list N) (ops : list (op bytes)),
-  c_skip cf = false -> c_memverify cf = true ->
+  c_skip cf = false -> c_memverify cf = true -> race_free ops = true ->
   C01_check H cf names ops (snd (run H cf names init ops)) = true.
-Proof. intros H cf names ops Hs Hm. exact (C01.check_sound H cf Hs Hm names ops). Qed.
+Proof. intros H cf names ops Hs Hm Hrf. exact (C01.check_sound H cf Hs Hm names ops Hrf). Qed.
 
 Lemma check_view_meaning : forall (H : bytes -> N) (name : N) (v : view bytes),
   view_ok H name v = true ->
@@ -47,8 +47,8 @@ Lemma readable_hashes_atomic : forall (H : bytes -> N) (cf : cfg) (l : list aop)
 Proof. intros H cf l name Hs. exact (C01_atomic.readable_hashes_atomic H cf Hs l name). Qed.
 
 Lemma api_refines_atomic : forall (H : bytes -> N) (cf : cfg) (ops : list (op bytes)),
-  c_skip cf = false -> c_memverify cf = true ->
+  c_skip cf = false -> c_memverify cf = true -> race_free ops = true ->
   exists l : list aop,
     let a := arun H cf ainit l in let s := exec H cf init ops in
     a_disk a = disk s /\ a_mem a = mem s /\ forall name, aview a name = view_of s name.
-Proof. intros H cf ops Hs Hm. exact (C01_atomic.api_refines_atomic H cf Hm ops). Qed.
+Proof. intros H cf ops Hs Hm Hrf. exact (C01_atomic.api_refines_atomic H cf Hm ops Hrf). Qed.
